@@ -75,6 +75,26 @@ CHECKS = {
    text="Publishers on two nodes, topics hosted on {1,2}, {2}, {1}, {} of three nodes, QoS 0/1/2, every combination of failing destinations (log / RPC) toggled between steps: each message must be appended exactly once to the log of each hosting node known to the publisher and to no other, each node writes it only to its local matching sessions, a failing destination does not prevent the others (checked at quiescence) and withholds the acknowledgement.",
    note="Trusts TLC, the Json module, the harness seams; gossip is fully delivered between steps.",
    design="5 C14, 4.5"),
+ "C11": dict(
+   technique="TLA+ spec Session model-checked with TLC (EndsOnlyForCause, NoEarlyExpiry, ClosedAtEnd, NoTraceLeft); TLC-generated session scripts executed on real nodes over virtual-time connections; the recorded trace validated by TLC against BrokerTrace incl. probes of every node at quiescence (trace validation)",
+   text="TLC-generated scripts (depth 5, thorough 6) of two connections on two nodes over connect / subscribe / ping / idle 0.5, 0.95, 2.1, 10 keep-alives at any position (incl. right after CONNECT, up to 3 per script) / DISCONNECT / connection loss / malformed packet / second CONNECT / publish, plus scripts with a hosting-node failure: no time-out within the keep-alive of the last client packet, no unregistration without cause, connection closed at the end, nothing written to an ended session, every node lists exactly the live sessions and their subscriptions at quiescence.",
+   note="Trusts TLC, the Json module, the harness (virtual clock for connection deadlines, completion hooks). Scripts are an even sample of the exhaustive set. The peer-failure purge is a real 3.3 s wait.",
+   design="5 C11, 4.8"),
+ "C12": dict(
+   technique="TLA+ spec Session model-checked with TLC (OneResolved, SuccessorSpared); TLC-generated takeover scripts (pairs, chains) and hand-written in-flight-tombstone schedules executed on real nodes; validated by TLC against BrokerTrace (trace validation)",
+   text="Pairs on one node, pairs on two nodes and chains of three connections sharing a client id, with the old session's PINGREQ / SUBSCRIBE / DISCONNECT / close interleaved in every order (depth 5-6, sampled evenly), plus schedules where the accepting node still lists a stale record: the new session is established, the displaced one gets no PINGRESP and ends, every node lists exactly the live non-displaced sessions and their subscriptions.",
+   note="Trusts TLC, the Json module, the harness gossip network. C12's proviso: records of earlier sessions are merged at the accepting node; clocks not skewed.",
+   design="5 C12, 4.8"),
+ "C13": dict(
+   technique="TLA+ spec Session model-checked with TLC (WillIffUnclean); TLC-generated scripts for will-carrying sessions executed on real nodes with watchers; will appends and deliveries validated by TLC against BrokerTrace (trace validation)",
+   text="Will QoS 0-2, retained or not, multi-level topic, tenant A, host node 1 or 2; causes DISCONNECT / close / malformed / keep-alive expiry / node failure at every position of scripts of depth 4 (thorough 5); watchers with '#', '+', exact and non-matching filters on two nodes and in another tenant: the will is appended only after an unclean end, under the tenant-prefixed topic, and every matching watcher receives it once per matching subscription; never after DISCONNECT.",
+   note="Trusts TLC, the Json module, the harness. Displacement is not among C13's causes (will allowed, not required).",
+   design="5 C13, 4.8"),
+ "C17": dict(
+   technique="TLA+ specs Session/Topics model-checked with TLC; TLC-generated multi-tenant scripts executed on real nodes; every delivery and every session listing validated by TLC against BrokerTrace (trace validation)",
+   text="Three connections in tenants A, B, A (client ids dev, dev, dev3) on two nodes with '#', '+', '+/+' subscriptions, publishers, retained messages and wills in both tenants, topics named like the other tenant, three '#' watchers: every PUBLISH written must stem from a message of the recipient's tenant and carry exactly the publisher's topic levels; a session is displaced only by a same-tenant session of the same client id.",
+   note="Trusts TLC, the Json module, the harness authentication seam (user 'tenant:<x>' -> mount point x). Mount-point names without '/', '+', '#'.",
+   design="5 C17, 4.8"),
 }
 
 def main():
